@@ -2,7 +2,9 @@
    the extracted model on fn/args and compares with impl_obs.
    Output: one line "MISMATCH \t lineno \t model_obs" per disagreement, then
    "DONE \t cases \t mismatches".  With argument "print" it prints the model
-   observation for each line instead (used by replay). *)
+   observation for each line instead (used by replay).  With arguments
+   "shard i k" only the cases whose number is i modulo k are evaluated (the
+   orchestrator runs k such processes side by side on large case files). *)
 (* " spec=..." is a marker the harness appends after checking the property's relation
    directly on the implementation's results; it is judged by a separate stage, not compared *)
 let strip_spec (s : string) : string =
@@ -12,12 +14,16 @@ let strip_spec (s : string) : string =
 
 let () =
   let print_mode = Array.length Sys.argv > 1 && Sys.argv.(1) = "print" in
-  let n = ref 0 and bad = ref 0 in
+  let (shard_i, shard_k) =
+    if Array.length Sys.argv > 3 && Sys.argv.(1) = "shard" then (int_of_string Sys.argv.(2), int_of_string Sys.argv.(3)) else (0, 1) in
+  let n = ref 0 and bad = ref 0 and evaluated = ref 0 in
   (try
      while true do
        let line = input_line stdin in
        if line <> "" && line.[0] <> '#' then begin
          incr n;
+         if !n mod shard_k = shard_i then begin
+         incr evaluated;
          let fields = String.split_on_char '\t' line in
          match fields with
          | fn :: rest when rest <> [] ->
@@ -48,7 +54,8 @@ let () =
              Printf.printf "MISMATCH\t%d\t%s\n" !n model_obs
            end
          | _ -> incr bad; Printf.printf "MISMATCH\t%d\tMODEL-ERROR:bad-line\n" !n
+         end
        end
      done
    with End_of_file -> ());
-  Printf.printf "DONE\t%d\t%d\n" !n !bad
+  Printf.printf "DONE\t%d\t%d\n" !evaluated !bad
